@@ -13,6 +13,7 @@ class RxCtx(Ctx):
         self._touched = set()
         self.extra_evidence = {}
         self._mutators = None
+        self.roots = list(API_ROOTS)
 
     # bodies -----------------------------------------------------------
     def body(self, path):
@@ -29,7 +30,7 @@ class RxCtx(Ctx):
         return self.body("<%s as %s>::%s" % (ty, trait, name))
 
     def api_reachable(self):
-        return self.cached("api_reach", lambda: self.cg.reachable(API_ROOTS))
+        return self.cached("api_reach", lambda: self.cg.reachable(self.roots))
 
     # purity -----------------------------------------------------------
     def mutators(self):
@@ -80,7 +81,7 @@ class RxCtx(Ctx):
         return base
 
 
-def make(facts_dir, repo="/repo", tier="quick"):
-    f = Facts(os.path.join(facts_dir, "regexml.main.json"))
+def make(facts_dir, repo="/repo", tier="quick", main_json="regexml.main.json"):
+    f = Facts(os.path.join(facts_dir, main_json))
     c = RxCtx(f, facts_dir, repo, tier)
     return c
